@@ -72,4 +72,10 @@ def obligations(tier, what=WHAT):
     pp = params(tier, "pipe")
     obs.append(Ob("pipe_server", partial(sp.ob_pipe_server, what=what), sp.LIFT_ALL, pp, to, ve,
                   ["v1", "v2", "v3"], bounds=_b(pp, ["larg", "nbody", "short"])))
+    ps = dict(pp)
+    ps.update(ncuts=1 if tier == "quick" else 2, nbody=1 if tier == "quick" else 2, larg=1)
+    obs.append(Ob("socket_pipelined", partial(sp.ob_socket_pipelined, what=what), sp.LIFT_ALL, ps, to, ve,
+                  ["pipelined", "straddling_read"],
+                  bounds="two back-to-back requests (any version pair), " + _b(ps, ["larg", "nbody", "ncuts"]) +
+                         "; every split of the byte stream into ncuts+1 socket reads"))
     return obs
